@@ -176,7 +176,7 @@ pub fn decode_hermes(mut rsm: RawSourceMap) -> Result<SourceMapHermes> {
             let FacebookScopeMapping {
                 names,
                 mappings: raw_mappings,
-            } = v.as_ref()?.iter().next()?;
+            } = v.as_ref()?.iter().next()?.as_ref()?;
 
             let mut mappings = vec![];
             let mut line: i64 = 1;
